@@ -23,6 +23,7 @@ from .common import Report, snapshot, same_cell, _cell
 
 PID = 'C17'
 LABELS = ['fb', 'fd', 'fa', 'fc']          # deliberately not in sorted order
+EXTRA = ['fe', 'ff']                       # appended (never rotated) for the 5- and 6-frame worlds
 
 
 # ---------------------------------------------------------------------------------------------
@@ -36,18 +37,22 @@ def make_frames(n, world=0):
         'fa': lambda: sf.Frame(np.arange(6).reshape(2, 3), index=sf.IndexHierarchy.from_labels([('a', 1), ('a', 2)]), columns=('u', 'v', 'w'), name='fa'),
         'fc': lambda: sf.Frame.from_dict({'k': [0.5], 'm': ['z w']}, index=('only',), name='fc'),
     }
-    order = LABELS[world:] + LABELS[:world]
+    # fe: auto-integer index, written WITHOUT its index (per-label exporter options differ from the default config)
+    fs['fe'] = lambda: sf.Frame.from_dict(dict(g=[7, 8, 9], h=['s', 't', 'u']), name='fe')
+    fs['ff'] = lambda: sf.Frame.from_dict(dict(a=[2.5, 3.5]), index=('m', 'n'), name='ff')
+    order = LABELS[world:] + LABELS[:world] + EXTRA
     return [fs[l]() for l in order[:n]]
 
 
-DEPTH = dict(fb=1, fd=1, fa=2, fc=1)
+DEPTH = dict(fb=1, fd=1, fa=2, fc=1, fe=0, ff=1)
+EXPORT = dict(fe=dict(include_index=False))
 
 
 def make_config(labels, workers=None):
     import static_frame as sf
     kw = {} if workers is None else dict(read_max_workers=workers, write_max_workers=workers)
     # the default config (index_depth=0) differs from every per-label config: a read with the wrong config is visible
-    return sf.StoreConfigMap({l: sf.StoreConfig(index_depth=DEPTH[l], **kw) for l in labels}, default=sf.StoreConfig(**kw))
+    return sf.StoreConfigMap({l: sf.StoreConfig(index_depth=DEPTH[l], **EXPORT.get(l, {}), **kw) for l in labels}, default=sf.StoreConfig(**kw))
 
 
 def formats():
@@ -531,6 +536,8 @@ def cases(tier):
         for n in (1, 2, 3, 4):
             for world in (0, 1, 2, 3) if not quick else (0, 2):
                 yield dict(phase='F', fmt=fmt, n=n, world=world)
+        for n in (5, 6):      # worlds holding a label whose exporter options differ from the default config
+            yield dict(phase='F', fmt=fmt, n=n, world=0)
     # H: histories
     for fmt in fmts:
         primary = fmt == 'zip_pickle'
@@ -548,6 +555,24 @@ def cases(tier):
                                 continue
                             seen.add(key)
                             yield dict(phase='H', fmt=fmt, n=n, world=world, mp=mp, hist=[list(o) for o in hist])
+    # X: one Frame loaded, then ONE selection mixing it with unloaded labels (longer than max_persist), then every label again
+    for fmt in (fmts if not quick else ['zip_pickle', 'sqlite']):
+        n = 6
+        for mp in (2, 3) if quick else (1, 2, 3, 4, 5):
+            for first in range(n):
+                others = [i for i in range(n) if i != first]
+                for pos in range(0, n - 1):
+                    for rev in (False, True):
+                        for drop in ((None,) if quick else (None, 0, 1)):
+                            o = others[::-1] if rev else list(others)
+                            if drop is not None:
+                                o = o[:drop] + o[drop + 1:]
+                            sel = o[:pos] + [first] + o[pos:]
+                            for how in ('ilist', 'list'):
+                                if quick and how == 'list' and fmt != 'zip_pickle':
+                                    continue
+                                hist = [('loc', first), (how, sel)] + [('loc', i) for i in range(n)]
+                                yield dict(phase='H', fmt=fmt, n=n, world=0, mp=mp, hist=[list(o_) for o_ in hist])
     # M: file mutation after a prefix
     for fmt in fmts:
         for n in (2, 3) if quick else (1, 2, 3, 4):
@@ -558,7 +583,7 @@ def cases(tier):
                 probes = probe_alphabet(n)
                 for plen in ((0, 1, 2) if fmt == 'zip_pickle' else (0, 1)) if quick else (0, 1, 2):
                     for prefix in itertools.product(small, repeat=plen):
-                        for kind in ('touch', 'rewrite', 'delete'):
+                        for kind in ('touch', 'touch-back', 'rewrite', 'delete'):
                             yield dict(phase='M', fmt=fmt, n=n, world=0, mp=mp, hist=[list(o) for o in prefix], kind=kind,
                                        probes=[list(o) for o in probes])
 
@@ -655,6 +680,9 @@ def mutate(w, kind):
     st = os.stat(fp)
     if kind == 'touch':
         os.utime(fp, ns=(st.st_atime_ns, st.st_mtime_ns + 2 * 10 ** 9))
+        return lambda: os.utime(fp, ns=(st.st_atime_ns, st.st_mtime_ns))
+    if kind == 'touch-back':      # replaced by a file with an OLDER modification time (restored backup, cp -p, mtime-preserving extraction)
+        os.utime(fp, ns=(st.st_atime_ns, st.st_mtime_ns - 5 * 10 ** 9))
         return lambda: os.utime(fp, ns=(st.st_atime_ns, st.st_mtime_ns))
     if kind == 'rewrite':
         w.write()
